@@ -171,26 +171,69 @@ def run(prog: Program, chk: Check):
     S.decide(shape(le) == shape(ld) and norm(le.iter).endswith("._fields_") and norm(ld.iter).endswith("._fields_"), f"{MB}|field-walk", where(enc, le), "both walk obj._fields_ with the same target shape",
              "encoder and decoder do not iterate _fields_ the same way")
     S.decide(name_e is not None and name_e == name_d, f"{MB}|field-name", where(enc, le), "both derive the public field name the same way", f"field name derivation differs: {name_e} vs {name_d}")
-    ce, cd_ = canon_cases(le.body, me), canon_cases(ld.body, md)
-    te, td = [t for t, _ in ce], [t for t, _ in cd_]
-    S.decide(te == td and len(te) >= 3, f"{MB}|outer-cases", where(enc, le), f"outer cases agree: {te}", f"outer case analysis differs: encoder {te} vs decoder {td}")
+    # the per-field case analysis as a *classification*: for every statement of the loop body, the conjunction of the
+    # type tests (tests that read nothing but the field's ctype) under which it runs.  Independent of how the chain is
+    # spelt (if/elif order of independent tests, inverted branches, early continue).
+    import copy as _copy
+
+    def leaves(f, lp, mapping):
+        g_ = C.build(f.node)
+        gs_ = flow.guard_states(g_)
+        tvar = "$f1"
+        out = {}
+        for n in g_.nodes:
+            if n.kind != "stmt" or n.ast is None or isinstance(n.ast, (ast.Continue, ast.Pass)) or not any(a is lp for a in _anc(n.ast)):
+                continue
+            for p_ in gs_.at(n):
+                facts = set()
+                for e, pol in p_:
+                    ce_ = _Canon(mapping).visit(_copy.deepcopy(e))
+                    while isinstance(ce_, ast.UnaryOp) and isinstance(ce_.op, ast.Not):
+                        ce_, pol = ce_.operand, not pol
+                    names = {x.id for x in ast.walk(ce_) if isinstance(x, ast.Name)}
+                    if tvar in names and names <= {tvar, "MessageBase", "ctypes", "issubclass", "isinstance"}:
+                        facts.add((norm(ce_), pol))
+                out.setdefault(frozenset(facts), []).append(n)
+        return out
+
+    from ..program import ancestors as _anc
+
+    LE, LD = leaves(enc, le, me), leaves(decf, ld, md)
+    LE.pop(frozenset(), None)
+    LD.pop(frozenset(), None)
+    as_expr = lambda fs: guards.parse(" and ".join((("" if pol else "not ") + "(" + t.replace("$", "_S_") + ")") for t, pol in sorted(fs)) or "True")
+    as_facts = lambda fs: [(guards.parse(t.replace("$", "_S_")), pol) for t, pol in sorted(fs)]
+    te, td = sorted(" & ".join(("" if pol else "!") + t for t, pol in sorted(fs)) for fs in LE), sorted(" & ".join(("" if pol else "!") + t for t, pol in sorted(fs)) for fs in LD)
     ALLOWED_ENCODER_ONLY = {"$f1._type_ is ctypes.c_byte", "$f1._type_ is ctypes.c_ubyte"}
-    for (t1, b1), (t2, b2) in zip(ce, cd_):
-        if "ctypes.Array" not in t1:
-            continue
-        ie, idd = [t for t, _ in canon_cases(b1, me)], [t for t, _ in canon_cases(b2, md)]
-        # decoder cases must be an ordered subsequence of the encoder's
-        it = iter(ie)
-        sub = all(any(x == y for y in it) for x in idd)
-        extra = [x for x in ie if x not in idd]
-        S.decide(sub and set(extra) <= ALLOWED_ENCODER_ONLY and len(idd) >= 3, f"{MB}|array-cases", where(enc, le),
-                 f"array cases agree (encoder-only: {extra})", f"array case analysis differs: encoder {ie} vs decoder {idd}")
-        # encoder-only byte cases must produce a list / bytes of ints (slice copy or bytes())
-        for t, body in canon_cases(b1, me):
-            if t in ALLOWED_ENCODER_ONLY:
-                vals = [norm(n.value) for n in ast.walk(ast.Module(body=body, type_ignores=[])) if isinstance(n, ast.Assign)]
-                okp = bool(vals) and all(v.endswith("[:].copy()") or v.startswith("bytes(") for v in vals)
-                S.decide(okp, f"{MB}|encoder-only:{t}", where(enc, le), f"{t}: encoded as list/bytes of ints {vals}", f"{t}: encoder-only case produces {vals}, not an int list / bytes")
+    okmap, why = len(LD) >= 5, []
+    if not okmap:
+        why.append(f"decoder distinguishes only {len(LD)} classes of field type")
+    image = {}
+    for e in LE:
+        ms = [d for d in LD if guards.implies(as_facts(e), as_expr(d))]
+        if len(ms) != 1:
+            okmap = False
+            why.append(f"encoder case [{' & '.join(('' if pol else '!') + t for t, pol in sorted(e))}] corresponds to {len(ms)} decoder case(s)")
+        else:
+            image.setdefault(ms[0], []).append(e)
+    for d in LD:
+        if d not in image:
+            okmap = False
+            why.append(f"decoder case [{' & '.join(('' if pol else '!') + t for t, pol in sorted(d))}] has no encoder counterpart")
+    S.decide(okmap, f"{MB}|outer-cases", where(enc, le), f"every encoder class of field type maps to exactly one decoder class ({len(LE)} -> {len(LD)})", "case analysis differs: " + "; ".join(why[:3]))
+    oka, extra_atoms = True, set()
+    for d, es in image.items():
+        if len(es) > 1:
+            for e in es:
+                extra_atoms |= {t for t, _ in e} - {t for t, _ in d}
+    S.decide(extra_atoms <= ALLOWED_ENCODER_ONLY, f"{MB}|array-cases", where(enc, le), f"distinctions only the encoder makes: {sorted(extra_atoms)} (byte arrays, encoded as int lists)",
+             f"the encoder distinguishes {sorted(extra_atoms - ALLOWED_ENCODER_ONLY)} but the decoder does not: that shape cannot be consumed")
+    # encoder-only byte cases must produce a list / bytes of ints (slice copy or bytes())
+    for atom in sorted(ALLOWED_ENCODER_ONLY & extra_atoms):
+        vals = sorted({norm(n.ast.value) for e, ns in LE.items() if (atom, True) in e for n in ns if isinstance(n.ast, ast.Assign)})
+        vals = [v.replace(next((k for k, v_ in me.items() if v_ == "$name"), "name"), "$name") for v in vals]
+        okp = bool(vals) and all(v.endswith("[:].copy()") or v.startswith("bytes(") for v in vals)
+        S.decide(okp, f"{MB}|encoder-only:{atom.replace('$f1', 'ftype')}", where(enc, le), f"{atom}: encoded as list/bytes of ints {vals}", f"{atom}: encoder-only case produces {vals}, not an int list / bytes")
     je = prog.func(MB, "RTMAJSONEncoder.default")
     tests = [norm(n.test) for n in walk_local(je.node) if isinstance(n, ast.If)]
     need = {"bytes": any("bytes" in t for t in tests), "ctypes.Array": any("ctypes.Array" in t for t in tests), "MessageBase": any("MessageBase" in t or "to_dict" in t for t in tests)}
